@@ -138,7 +138,7 @@ FAMILIES = {
     "C01": {"struct", "dict"}, "C02": {"struct", "leak", "dict", "set", "consume", "bulk", "clone"},
     "C03": {"struct", "full", "bulk", "leak"}, "C04": {"struct", "uniq", "dict", "set"},
     "C05": {"struct", "uniq", "sweep"}, "C06": set(), "C07": {"struct", "set", "bulk"}, "C08": {"alg"},
-    "C09": {"iter"}, "C10": {"consume", "struct", "leak"}, "C11": {"struct", "entry"}, "C12": {"ident", "bulk"},
+    "C09": {"iter"}, "C10": {"consume", "struct", "leak"}, "C11": {"struct", "entry", "leak"}, "C12": {"ident", "bulk"},
     "C13": {"gdm"}, "C14": {"eq"}, "C15": {"clone"}, "C16": {"bulk", "struct"}, "C17": {"struct"},
     "C18": {"struct", "unchecked"}, "C19": {"fmt", "dbg"}, "C20": {"serde"},
 }
@@ -1194,6 +1194,8 @@ def run(prop, ops_path, impl_path, profile):
             if "struct" in fam:
                 for r2, sn in t["snaps"].items():
                     check_struct(case, r2, sn, fam, fails)
+            if op == "shapes" and (t["outcome"] != "ok" or t["ret"] != '"ok"'):
+                fails.append("scenario on another element shape: %s %s" % (t["outcome"], t["ret"]))
             if op in ("gdm", "gdum") and t["outcome"] == "ok" and t["ret"] and fam & {"struct", "gdm", "unchecked"}:
                 # whatever `==` answers: two of the returned `&mut` never point into the same slot
                 # (for the unchecked variant only when the requested keys are pairwise different)
